@@ -17,20 +17,25 @@ OPS = {'o': 'cleared', 'x': 'failed', '-': 'passed', 'r': 'retired'}
 
 
 class Player(object):
-    def __init__(self, n, on_call=None, noise=0, draw=None, max_reg=4):
+    def __init__(self, n, on_call=None, noise=0, draw=None, max_reg=4, lenient=False):
         self.c, self.m, self.hist = hjsearch.start(BIBS[:n])
         self.alive = True
         self.on_call = on_call
         self.noise = noise
         self.draw = draw
         self.max_reg = max_reg
+        self.lenient = lenient
         self.calls = 0
+        self.all_calls = []      # every call issued, refused ones included
 
     def _run(self, call):
         vs, status = hjsearch.check_call(self.c, self.m, call, self.hist)
         self.calls += 1
+        self.all_calls.append(call)
         if status == 'ok':
             self.hist.append(call)
+        elif status == 'truncated:refusal-mutated' and self.lenient:
+            status = 'refused'        # C02 reports it; other checks go on with the competition as it now is
         elif status != 'refused':
             self.alive = False
         if self.on_call:
@@ -95,10 +100,10 @@ def jumpoff(p, draw, max_heights=3):
                 break
 
 
-def random_play(draw, on_call=None, noise=0, nmin=2):
+def random_play(draw, on_call=None, noise=0, nmin=2, lenient=False):
     n = nmin + draw(5 - nmin)
     hreg = 1 + draw(4)
-    p = Player(n, on_call, noise, draw)
+    p = Player(n, on_call, noise, draw, lenient=lenient)
     bibs = BIBS[:n]
     h = Decimal('0.95')
     for i in range(hreg):
